@@ -206,7 +206,7 @@ func c11RejectCase(tier string, seed int64, idx int, scratch string) rt.CaseResu
 	defer in.Close()
 	defer verif.SetWriteFault(nil)
 	defer verif.SetOpFault(nil)
-	sizes := []int{0, 1, 2047, 2048, 2049, 100000, 1 << 20, 4<<20 + 17}
+	sizes := []int{0, 1, 2047, 2048, 2049, 100000, 1 << 20, 4<<20 - 5, 4<<20 - 4, 4 << 20, 4<<20 + 17, 9<<20 + 1}
 	for round := 0; round < tierN(tier, 2, 4); round++ {
 		for _, size := range sizes {
 			for _, api := range []string{"set", "setreader", "create"} {
@@ -265,6 +265,29 @@ func c11RejectCase(tier string, seed int64, idx int, scratch string) rt.CaseResu
 					if ci != cg {
 						c.Violate(fmt.Sprintf("server-rejection-class-differs op=%s rejection=%s inline=%s grpc=%s", api, rej, ci, cg), fmt.Sprintf("%s of %d bytes, rejection %s: the inline client reports %s, the gRPC client %s", api, size, rej, ci, cg), map[string]any{"api": api, "size": size, "rejection": rej, "inline": ci, "grpc": cg})
 						return c
+					}
+					if rej == "none" && cg == "ok" {
+						// what was stored must come back the same way through both clients
+						for _, rd := range []string{"get", "getreader"} {
+							read := func(db fs_db.DB) ([]byte, error) {
+								if rd == "get" {
+									return db.Get(ctxBg, key)
+								}
+								rc, err := db.GetReader(ctxBg, key)
+								if err != nil {
+									return nil, err
+								}
+								defer rc.Close()
+								return io.ReadAll(rc)
+							}
+							bi, ei := read(in.DB)
+							bg, eg := read(g.DB)
+							c.Evals++
+							if seqrun.Class(ei) != seqrun.Class(eg) || ei == nil && (!bytes.Equal(bi, content) || !bytes.Equal(bg, content)) {
+								c.Violate(fmt.Sprintf("read-back-differs op=%s inline=%s grpc=%s", rd, seqrun.Class(ei), seqrun.Class(eg)), fmt.Sprintf("%s of a %d-byte value: inline %d bytes (%v), gRPC %d bytes (%v)", rd, size, len(bi), ei, len(bg), eg), map[string]any{"op": rd, "size": size})
+								return c
+							}
+						}
 					}
 					c.AddDistinct(fmt.Sprintf("reject:%s/%s/%s/%s", api, rej, lenClass(size), cg))
 				}
